@@ -388,3 +388,5 @@ NOT_APPLICABLE = [
 _W10 = {'C03': ' Non-printable login names in the re-USER alphabet; an anonymous account that has a password.', 'C04': ' The permission table changed between two lookups (entry added, removed, replaced).', 'C05': " A TLS server's listeners (control and every passive one, with and without a port pool) all carry the context.", 'C06': ' Masks and reply lines given as sets, frozensets, generators and dict views; two-character codes against three-character masks; long verbs echoed in 502.', 'C07': ' A first listing refused for a reason other than MLSD being unknown, then further listings.', 'C08': " Client.download of '.' and of the empty path, also against a LIST-only server.", 'C09': ' A tree uploaded a second time into what the first upload left.', 'C10': ' The account table in another order (anonymous listed first) with unknown login names.', 'C11': ' Several accounts: re-login as the same, another and an unknown account with a listener open.', 'C12': ' Accounts with one connection each: sessions that end between USER and PASS, after a wrong password, after switching accounts - afterwards every account can be logged into.', 'C13': ' Failures of the operating system under the stock file-system backends: /dev/full (flush at close), /proc/self/mem (read), a directory the process may not read (effective uid switched while the command is served).', 'C14': ' A backend whose close takes longer than path_timeout and ignores it, with SYST / ABOR / PWD behind the ABOR.', 'C15': ' Streams built without a table of throttles are independent; one anonymous account used under several names shares one limit.', 'C16': ' A data peer that takes a few bytes of a blocked write and then stops; two transfers waiting for one data connection.', 'C17': ' Same-instant command pairs on a backend that suspends in every call (restart offsets travel with their own handler).', 'C18': ' Backend-API sequences over a tree with symbolic links (to a file, a directory, nothing).', 'C19': ' A work item that does not return within its wall-clock budget is a violation; data addresses that swallow the connection attempt.', 'C20': " An account appended to the user manager's list after construction; every chain of 33x replies of a foreign server through Client.login."}
 for _k, _v in _W10.items():
     EXTRA[_k] = EXTRA.get(_k, "") + _v
+EXTRA["C07"] += " Well-formed DOS dir lines (the parser chain's second format) over every time of day, grouped sizes and <DIR> read back exactly."
+EXTRA["C14"] += " The library's own Client.abort() (waiting / not waiting) in the middle of downloads, uploads, appends and listings, after which the client is used on."
